@@ -23,8 +23,11 @@ structure CharDom (p q : Char → Bool) : Prop where
   sub : ∀ c, p c = true → q c = true
   sp : p ' ' = true
   nl : p '\n' = true
-  /-- literals of `code_escape` (`&amp;` `&lt;` `&gt;`) and of `'{}'.format(None)` -/
-  lits : ∀ c ∈ "&amp;ltgNone".toList, q c = true
+  /-- `code_escape` stays inside `q` (it inserts the literals `&amp;` `&lt;` `&gt;` — or nothing, when the string has
+      none of `&`, `<`, `>`); see `CharDom.ofLits` for the instance "`q` contains the literals" -/
+  esc : ∀ s : Str, (∀ c ∈ s, q c = true) → ∀ c ∈ codeEscape s, q c = true
+  /-- the literal of `'{}'.format(None)` -/
+  none : ∀ c ∈ "None".toList, q c = true
 
 def AllC (p : Char → Bool) (s : Str) : Prop := ∀ c ∈ s, p c = true
 
@@ -475,11 +478,16 @@ theorem allC_codeEscape {q : Char → Bool} (hl : ∀ c ∈ "&amp;ltgNone".toLis
   have h3 : AllC q "&gt;".toList := fun c hc => hl c (by revert hc; revert c; decide)
   exact allC_replace (allC_replace (allC_replace h h1) h2) h3
 
-theorem allC_fmtOpt {q : Char → Bool} (hl : ∀ c ∈ "&amp;ltgNone".toList, q c = true) {o : Option Str}
+theorem allC_fmtOpt {q : Char → Bool} (hl : ∀ c ∈ "None".toList, q c = true) {o : Option Str}
     (h : AllC q (o.getD [])) : AllC q (fmtOpt o) := by
   cases o with
-  | none => exact fun c hc => hl c (by revert hc; revert c; simp only [fmtOpt]; decide)
+  | none => exact fun c hc => hl c (by simpa only [fmtOpt] using hc)
   | some s => exact h
+
+/-- the usual instance: `q` contains the literals of `code_escape` and of `'{}'.format(None)` -/
+theorem CharDom.ofLits {p q : Char → Bool} (sub : ∀ c, p c = true → q c = true) (sp : p ' ' = true)
+    (nl : p '\n' = true) (lits : ∀ c ∈ "&amp;ltgNone".toList, q c = true) : CharDom p q :=
+  ⟨sub, sp, nl, fun _ h => allC_codeEscape lits h, fun c hc => lits c (by revert hc; revert c; decide)⟩
 
 theorem fmtOpt_truthy {o : Option Str} (h : Node.truthy o = true) : fmtOpt o = o.getD [] := by
   cases o with
@@ -717,7 +725,7 @@ theorem preCode_textQ (h : CharDom p q) {parent sib code : Node} (hP : TInv p q 
     (hl : parent.last? = some sib) (hc : preCode sib = some code) : AllC q (fmtOpt code.text) := by
   obtain ⟨_, _, tl, hch⟩ := preCode_some hc
   have hcode := ((hP.last hl).1.child (c := code) (by rw [hch]; simp)).1
-  exact allC_fmtOpt h.lits (hcode.bnode.textQ h)
+  exact allC_fmtOpt h.none (hcode.bnode.textQ h)
 
 theorem tinv_pre {t : Str} (ht : AllC q t) :
     TInv p q { Node.el "pre" with children := [{ Node.el "code" with text := some t, textAtomic := true }] } := by
@@ -758,7 +766,7 @@ theorem codeP_chars (h : CharDom p q) {tab : Nat} {refs : Refs} {parent : Node} 
     · exact hrest
     · exact allL_cons.2 ⟨hd.2, hrest⟩
   have hesc : AllC q (codeEscape (rstrip (detab tab b).1)) :=
-    allC_codeEscape h.lits (fun c hc => h.sub c (hd.1.rstrip c hc))
+    h.esc _ (fun c hc => h.sub c (hd.1.rstrip c hc))
   have hnl : AllC q ['\n'] := AllC.nlStr (h.sub _ h.nl)
   have hfresh := hP.append (tinv_pre (p := p) (allC_append.2 ⟨hesc, hnl⟩)) rfl
   simp only [codeP]
@@ -1286,10 +1294,10 @@ theorem parseDocument_chars {p q : Char → Bool} (h : CharDom p q) (tab : Nat) 
 def okc (c : Char) : Bool := c != STX && c != ETX
 
 theorem charDom_noctl : CharDom okc okc :=
-  ⟨fun _ hc => hc, by decide, by decide, by decide⟩
+  CharDom.ofLits (fun _ hc => hc) (by decide) (by decide) (by decide)
 
 theorem charDom_dom (esc : Bool) : CharDom (fun c => okc c && domChar esc c) okc := by
-  refine ⟨fun c hc => ?_, ?_, ?_, by decide⟩
+  refine CharDom.ofLits (fun c hc => ?_) ?_ ?_ (by decide)
   · simp only [Bool.and_eq_true] at hc; exact hc.1
   · cases esc <;> decide
   · cases esc <;> decide
